@@ -21,7 +21,7 @@ from pexpect.popen_spawn import PopenSpawn
 
 from ..core.runner import split_range
 from ..core.watchdog import watchdog, CaseTimeout
-from ..core.acc import second_attempt
+from ..core.acc import second_attempt, confirmed
 from ..workloads.gen_expect import rng_for
 from ..workloads.puppetctl import Puppet, PeerError, wait_state, fd_readable, proc_stat
 
@@ -829,8 +829,10 @@ def dispatch(case, acc):
 def one(case, acc):
     acc.case()
     try:
-        with watchdog(90):
-            dispatch(case, acc)
+        with watchdog(200):
+            # (several clauses are bounded by wall-clock limits - "no EOF within 20 s" - that an overloaded machine can
+            # exceed by itself: a violation counts when it reproduces in a second, serial run of the same case)
+            confirmed(case, dispatch, acc, retries=1)
     except PeerError as e:
         acc.inconc('peer: %s (%r)' % (e, case))
     except CaseTimeout as e:
